@@ -147,6 +147,29 @@ def main(argv):
             d['file'] = d['file'] + decoys_for(c, None, rng)
             cases.append(d)
             kinds.append('with-unrelated')
+    # a declaration of EVERY other kind under the name of a port type or of a formal's type (ambiguity across kinds, wrong kind)
+    found, tries = 0, 0
+    while found < (3 if tier == 'quick' else 30) and tries < 4000:
+        tries += 1
+        b = GB.gen_case(rng)
+        got = []
+        for kind in GB.OTHER_KINDS:
+            GB.FORCE_KIND = kind
+            try:
+                got += [(kind, f) for f in GB.faults(rng, b) if f[0].endswith('other-kind') or f[0] == 'port-type-wrong-kind']
+            finally:
+                GB.FORCE_KIND = None
+        if len(got) < 2 * len(GB.OTHER_KINDS):
+            continue
+        found += 1
+        for kind, f in got:
+            c = {'file': f[1]['file'], 'cfg': f[1]['cfg']}
+            cases.append(c)
+            kinds.append('other-kind:' + kind)
+            d = copy.deepcopy(c)
+            d['file'] = d['file'] + decoys_for(c, None, rng)
+            cases.append(d)
+            kinds.append('with-unrelated')
     io, mo = BC.run_builds(cases, timeout=3000)
     nv = 0
     text_only, any_failing = [], False
